@@ -175,14 +175,22 @@ static std::string direct_oracle(const SpaceGroup& sg, Lcg& rng, int natoms, boo
 }
 
 template<typename Table>
-static std::string fft_oracle(const SpaceGroup& sg, Lcg& rng, int natoms, bool aniso, double scale) {
+static std::string fft_oracle(const SpaceGroup& sg, Lcg& rng, int natoms, bool aniso, double scale, bool with_addends) {
   Structure st = make_structure(sg, rng, natoms, aniso, false, scale);
   // the FFT route assumes occupancies of atoms on special positions are already reduced; avoid overlap
   // of an atom with its own images changing nothing: both routes sum over all images identically.
   GroupOps gops = sg.operations();
   double d_min = 2.2;
+  // anomalous corrections f' as addends (the same in both routes), for half of the X-ray cases (the density route
+  // documents that it uses addends only with tables that have a constant term, i.e. IT92)
+  Addends addends;
+  if (with_addends && rng.range(0, 1)) {
+    addends.set(Element(El::Fe), -1.35f); addends.set(Element(El::Zn), -1.6f); addends.set(Element(El::Se), -2.8f);
+    addends.set(Element(El::S), 0.32f); addends.set(Element(El::Ca), 0.34f); addends.set(Element(El::P), 0.28f);
+  }
   auto run = [&](double rate, float cutoff, std::vector<std::complex<double>>& out, std::vector<Miller>& hkls) {
     DensityCalculator<Table, float> dc;
+    dc.addends = addends;
     dc.d_min = d_min;
     dc.rate = rate;
     dc.cutoff = cutoff;
@@ -210,6 +218,7 @@ static std::string fft_oracle(const SpaceGroup& sg, Lcg& rng, int natoms, bool a
   run(1.5, 1e-5f, f1, h1);
   run(2.5, 1e-7f, f2, h2);
   StructureFactorCalculator<Table> calc(st.cell);
+  calc.addends = addends;
   auto rfactor = [&](const std::vector<std::complex<double>>& f, const std::vector<Miller>& hk) {
     double num = 0, den = 0;
     for (size_t i = 0; i < hk.size(); ++i) {
@@ -316,9 +325,9 @@ static std::string handle(const std::string& cmd, const std::string& args) {
     // small cells only with few operations: dozens of overlapping images of each atom in a 5 A cell make nearly all
     // structure factors vanish, and the R factor (a ratio to their sum) ill-conditioned
     if (scale < 1.0 && sg.operations().order() > 8) return "skip";
-    if (table == 0) return fft_oracle<IT92<float>>(sg, rng, natoms, aniso, scale);
-    if (table == 1) return fft_oracle<C4322<float>>(sg, rng, natoms, aniso, scale);
-    return fft_oracle<Neutron92<float>>(sg, rng, natoms, aniso, scale);
+    if (table == 0) return fft_oracle<IT92<float>>(sg, rng, natoms, aniso, scale, true);
+    if (table == 1) return fft_oracle<C4322<float>>(sg, rng, natoms, aniso, scale, false);
+    return fft_oracle<Neutron92<float>>(sg, rng, natoms, aniso, scale, false);
   }
   if (cmd == "o_charge") {
     // two ions of one element with different tabulated charges: the form factor of each must be its own
